@@ -2,7 +2,8 @@
   Props.C11 — "Graph algorithms equal their textbook definitions on every graph".
 
   Container (pattern P1, mirror `FalconModel/Graph.lean` of lib/graph/mod.rs):
-    edits_consistent, edit_refines, edits_refine, consistent_edges_in
+    edits_consistent, edit_refines, edits_refine, consistent_edges_in,
+    vertex_queries_present, vertex_queries_absent, removed_vertex_queries_fail
   Algorithms (pattern P2, definitional models `FalconModel/GraphAlg.lean`, all built on `reach`):
     reach_spec, reach_spec_general, dominates_spec, doms_spec, idom_spec, idom_unique, idom_exists,
     idom_root, domTree_spec,
@@ -21,6 +22,7 @@ import FalconProofs.C11.Edits
 import FalconProofs.C11.Orders
 import FalconProofs.C11.IdomExists
 import FalconProofs.C11.Nesting
+import FalconProofs.C11.Queries
 
 namespace Falcon.C11
 open Falcon.Reach Falcon.G Falcon.GA
@@ -54,6 +56,33 @@ theorem edits_refine (ops : List Op) (g : Graph) (s : SGraph) (c : g.Consistent)
 /-- in a consistent container every edge joins two vertices of the graph -/
 theorem consistent_edges_in (g : Graph) (c : g.Consistent) (h t : Nat) (he : (h, t) ∈ g.edges) :
     h ∈ g.verts ∧ t ∈ g.verts := c.edges_in he
+
+/-- **vertex_queries_present**: in a consistent container every public per-vertex query on a vertex
+    (`has_vertex`, `vertex`, `successor_indices`, `predecessor_indices`, `successors`, `predecessors`,
+    `edges_out`, `edges_in`) answers Ok with the successor / predecessor set of that vertex. -/
+theorem vertex_queries_present (g : Graph) (c : g.Consistent) (v : Nat) (hv : v ∈ g.verts) :
+    g.hasVertex v = true ∧ g.qVertex v = .ok () ∧
+    g.qSuccIdx v = .ok (g.succOf v) ∧ g.qPredIdx v = .ok (g.predOf v) ∧
+    g.qSuccessors v = .ok (g.succOf v) ∧ g.qPredecessors v = .ok (g.predOf v) ∧
+    g.qEdgesOut v = .ok (g.succOf v) ∧ g.qEdgesIn v = .ok (g.predOf v) :=
+  Graph.queries_present g c v hv
+
+/-- **vertex_queries_absent**: … and on any id that is not a vertex all of them answer vertex-not-found. -/
+theorem vertex_queries_absent (g : Graph) (c : g.Consistent) (v : Nat) (hv : v ∉ g.verts) :
+    g.hasVertex v = false ∧ g.qVertex v = .err (.vnf v) ∧
+    g.qSuccIdx v = .err (.vnf v) ∧ g.qPredIdx v = .err (.vnf v) ∧
+    g.qSuccessors v = .err (.vnf v) ∧ g.qPredecessors v = .err (.vnf v) ∧
+    g.qEdgesOut v = .err (.vnf v) ∧ g.qEdgesIn v = .err (.vnf v) :=
+  Graph.queries_absent g c v hv
+
+/-- **removed_vertex_queries_fail**: after `remove_vertex(v)` every per-vertex query on `v` answers
+    vertex-not-found: the removed id is gone from all four views, not only from `vertices`. -/
+theorem removed_vertex_queries_fail (g g' : Graph) (v : Nat) (c : g.Consistent) (h : g.removeVertex v = .ok g') :
+    g'.hasVertex v = false ∧ g'.qVertex v = .err (.vnf v) ∧
+    g'.qSuccIdx v = .err (.vnf v) ∧ g'.qPredIdx v = .err (.vnf v) ∧
+    g'.qSuccessors v = .err (.vnf v) ∧ g'.qPredecessors v = .err (.vnf v) ∧
+    g'.qEdgesOut v = .err (.vnf v) ∧ g'.qEdgesIn v = .err (.vnf v) :=
+  Graph.removed_vertex_queries_fail g g' v c h
 
 example : ∃ g, runOps Graph.empty [.iv 1, .iv 2, .ie 1 2, .ie 2 2, .ie 1 3, .rv 2, .ru 1] = some g ∧ g.Consistent :=
   let ⟨g, h, c, _⟩ := edits_consistent [.iv 1, .iv 2, .ie 1 2, .ie 2 2, .ie 1 3, .rv 2, .ru 1]
